@@ -58,7 +58,7 @@ Definition c35_bad_shapes (prog : list (string * stmt)) : list (string * string 
                           (filter (fun gs => c35_isg (fst gs) && negb (shape_ok (snd gs))) (guards_of (snd nb)))) prog.
 
 (* ---- what the index getters and the accepted shapes mean ------------------------- *)
-Open Scope Z_scope.
+Local Open Scope Z_scope.
 (* Server.AlphabetIndex / InnerRingIndex: -1 when the lookup fails; keyPosition gives -1 for
    a key that is not in the list *)
 Definition index_of (lookup : option Z) : Z := match lookup with None => -1 | Some i => i end.
